@@ -78,6 +78,16 @@ def accepted(fr, nd):
     return {repr(float(Fraction(k, 10 ** nd)))}, False
 
 
+def printed_single_division(fr, nd):
+    """the one string round(a / b, nd) must print when a / b is a single correctly rounded division of integers (fr = a/b exactly):
+    the double nearest to fr, rounded half-even on its exact binary value"""
+    x = Fraction(float(fr)) * 10 ** nd
+    lo = x.numerator // x.denominator
+    frac = x - lo
+    k = lo + 1 if (frac > Fraction(1, 2) or (frac == Fraction(1, 2) and lo % 2 == 1)) else lo
+    return repr(float(Fraction(k, 10 ** nd)))
+
+
 def parse_report(text):
     d = {}
     for l in text.splitlines():
@@ -109,6 +119,8 @@ def verdict(lines, cigar, text):
         if k not in rep:
             return "report has no line %r" % k, 0
         acc, tie = accepted(fl[k], nd)
+        if k == "Average mapping quality":
+            acc, tie = {printed_single_division(fl[k], nd)}, False  # integer sums: no order or accumulation effects, exact prediction
         if rep[k] not in acc:
             return "%s: printed %s, recomputed %s = %s (%.6f)" % (k, rep[k], fl[k], "/".join(sorted(acc)), float(fl[k])), 0
         ties += tie
@@ -279,7 +291,7 @@ def run(ctx):
                 if text is not None and k not in by_multiset:
                     by_multiset[k] = (lines, text)
     # ---- 2. random files, all permutations up to 5 records ----------------------------------------------------------------------------
-    n_small = 12 if ctx.quick else 150
+    n_small = 12 if ctx.quick else 500
     ctx.bound("random small: %d files of 1-5 records over 1-3 reads x all permutations (<= 120) x {plain, --cigar}; every 4th file BGZF" % n_small)
     for i in range(n_small):
         n = 1 + i % 5
@@ -295,7 +307,7 @@ def run(ctx):
             break
     # ---- 3. larger files, seeded shuffles ---------------------------------------------------------------------------------------------
     sizes = [6, 10, 25, 60, 150, 300]
-    n_rounds = 6 if ctx.quick else 80
+    n_rounds = 6 if ctx.quick else 350
     n_shuf = 4 if ctx.quick else 8
     ctx.bound("random large: %d rounds x sizes %s records over 1..n/2 reads x %d seeded shuffles (+ the reversed order) x {plain, --cigar}; "
               "every 5th file BGZF" % (n_rounds, sizes, n_shuf))
